@@ -105,8 +105,8 @@ class CodeGenerator(nunavut._generators.AbstractGenerator):
                 if isinstance(pp, LimitEmptyLines):
                     found_pp = True
                     break
-            if not found_pp:
-                post_processors.append(LimitEmptyLines(limit_empty_lines))
+            if not found_pp:  # a new list: the caller's list may be shared with other generators
+                post_processors = post_processors + [LimitEmptyLines(limit_empty_lines)]
         return post_processors
 
     @staticmethod
@@ -120,14 +120,14 @@ class CodeGenerator(nunavut._generators.AbstractGenerator):
         if post_processors is None:
             post_processors = [TrimTrailingWhitespace()]
         else:
-            found_pp = False
-            for pp in post_processors:
-                if isinstance(pp, TrimTrailingWhitespace):
-                    found_pp = True
-                    break
-            if not found_pp:  # trim before limiting: a whitespace-only line is empty only once it has been trimmed
+            if not any(isinstance(pp, TrimTrailingWhitespace) for pp in post_processors):
+                # Trim before limiting: a whitespace-only line is empty only once it has been trimmed.
+                # The result is a new list: the caller's list may be shared with other generators.
                 limiters = [i for i, pp in enumerate(post_processors) if isinstance(pp, LimitEmptyLines)]
-                post_processors.insert(limiters[0] if limiters else len(post_processors), TrimTrailingWhitespace())
+                at = limiters[0] if limiters else len(post_processors)
+                head = post_processors[:at]
+                tail = post_processors[at:]
+                post_processors = head + [TrimTrailingWhitespace()] + tail
         return post_processors
 
     @classmethod
